@@ -455,7 +455,7 @@ let () =
             Printf.fprintf oc "R id=%s %s\nD id=%s %s\n" c.id r c.id d
           | "run" ->
             let (r, d) = ref_run_case c in
-            Printf.fprintf oc "R id=%s %s\nD id=%s C13=%d\n" c.id r c.id (if d then 1 else 0)
+            Printf.fprintf oc "R id=%s %s\nD id=%s C13=%d C10=%d C17=%d\n" c.id r c.id (if d then 1 else 0) (if d then 1 else 0) (if d then 1 else 0)
           | "sock" ->
             (* the reference for control lines is the model's line semantics (characterised by the C18 theorems) *)
             let ers = List.init 8 (fun i -> Printf.sprintf "%x" (int_of_z (get_er s1.er (z_of_int i)))) in
